@@ -107,6 +107,37 @@ Proportional2(w1, w2) ==
            /\ w1.ratios[i][1] * w2.ratios[i][2] * w2.ratios[p][1] = w2.ratios[i][1] * w1.ratios[i][2] * w2.ratios[p][2]
      /\ (w1.sgn = w2.sgn) = (w2.ratios[p][1] * w2.ratios[p][2] > 0)
 (***************************************************************************)
+(* The cell parser, judged on its own output (stage "parsed"): every cell  *)
+(* card of the deck - LIKE n BUT cards expanded - is read as the abstract  *)
+(* deck says: universe, whether the importance is zero, LAT, FILL universe *)
+(* or FILL array (ranges and universes in card order), material number,    *)
+(* the FILL transformation and the TRCL (present or not, and their values: *)
+(* exact decks have integer matrices and half-integer displacements).      *)
+(* S.pcells = the recorded cells.  Lattices filled through --lattice       *)
+(* (array not on the card) are compared on ranges and universes as given   *)
+(* by the option.                                                          *)
+(***************************************************************************)
+SameTr(rec, has, tr) ==
+  IF ~has THEN ~rec.has
+  ELSE rec.has /\ (rec.exact => (rec.o2 = [i \in 1..3 |-> 2 * tr.o[i]] /\ rec.m = tr.m))
+ParsedDefects(D, S) ==
+  LET pk == { S.pcells[i].key : i \in 1..Len(S.pcells) }
+      P(n) == S.pcells[CHOOSE i \in 1..Len(S.pcells) : S.pcells[i].key = n]
+      bad(c) ==
+        IF c.n \notin pk THEN {"cell_not_parsed"}
+        ELSE LET p == P(c.n) IN
+             (IF p.u # c.u THEN {"universe"} ELSE {})
+             \cup (IF p.zeroimp # (c.imp = 0) THEN {"importance_zero"} ELSE {})
+             \cup (IF p.lat # c.lat THEN {"lat"} ELSE {})
+             \cup (IF p.mat # c.mat /\ ~(c.fill # 0 \/ c.lat # 0) THEN {"material"} ELSE {})
+             \cup (IF c.lat = 0 /\ p.fill # c.fill THEN {"fill_universe"} ELSE {})
+             \cup (IF c.lat # 0 /\ c.lranges # <<>> /\ (p.ranges # c.lranges \/ p.univs # c.lunivs) THEN {"fill_array"} ELSE {})
+             \cup (IF (c.fill # 0 \/ c.lat # 0) /\ ~SameTr(p.ftr, c.hasftr, c.ftr) THEN {"fill_transformation"} ELSE {})
+             \cup (IF ~SameTr(p.trcl, c.hastrcl, c.trcl) THEN {"trcl"} ELSE {})
+  IN UNION { bad(D.cells[i]) : i \in 1..Len(D.cells) }
+     \cup (IF Len(S.pcells) # Len(D.cells) THEN {"cell_count"} ELSE {})
+
+(***************************************************************************)
 (* The lattice pass (develop_lattice), judged on its own output: the cells *)
 (* it creates are exactly one per element of the declared ranges whose     *)
 (* FILL entry is not 0 - none outside the ranges, none for universe 0 -,   *)
